@@ -40,5 +40,8 @@ def replay(obj):
     if obj.get("stream") == "c12policy":
         r, done, cmds = dbgsem.policy_case(case["text"], case["policy"], case.get("break"))
         return None if r in (None, "skip") else r
+    if case.get("multifile"):
+        r, done = dbgsem.multifile_case(case["cmds"])
+        return None if r in (None, "skip") else r
     r, done = dbgsem.c12_case(case["text"], case["opts"], case["cmds"])
     return None if r in (None, "skip") else r
